@@ -1088,3 +1088,258 @@ fn attr_registry_codes_distinct() {
     assert!(registry_from_source(crate::AttributeType::from(registered_type(i))).is_some());
     assert!(REGISTERED == 38, "all 38 kinds of the five feature sets are registered");
 }
+
+// =============================================================================================
+// C14 (attribute level) / C03: every attribute encoder respects the slice it is given — for every
+// buffer length 0..=needed+2 (symbolic) it returns Err when the value does not fit and never
+// panics; on Ok the size is the needed size.
+// =============================================================================================
+fn enc_any_len<A: EncodeAttributeValue>(a: &A, msg: &[u8; 20], needed: usize) {
+    let fill: u8 = kani::any();
+    let mut out = [fill; CAP];
+    let blen: usize = kani::any();
+    kani::assume(blen <= needed + 2 && blen <= CAP);
+    let r = a.encode(AttributeEncoderContext::new(None, msg, &mut out[..blen]));
+    match &r {
+        Ok(n) => {
+            assert!(*n == needed && blen >= needed, "C14: Ok only when the value fits, with the exact size");
+            let j: usize = kani::any();
+            kani::assume(j < CAP);
+            if j >= needed {
+                assert!(out[j] == fill, "C14: nothing written beyond the returned size");
+            }
+        }
+        Err(_) => assert!(blen < needed, "C14: a slice that is long enough is accepted"),
+    }
+    kani::cover!(r.is_err());
+    kani::cover!(r.is_ok());
+    std::mem::forget(r);
+}
+
+#[kani::proof]
+#[kani::unwind(12)]
+#[kani::stub(alloc::fmt::format, nofmt)]
+fn c14_attr_error_code_any_len() {
+    let msg = any_header();
+    let code: u16 = kani::any();
+    kani::assume(code >= 300 && code <= 699);
+    let ec = match crate::ErrorCode::new(code, "abc") {
+        Ok(e) => e,
+        Err(_) => return,
+    };
+    let a = crate::attributes::stun::ErrorCode::new(ec);
+    enc_any_len(&a, &msg, 7);
+    std::mem::forget(a);
+}
+
+#[kani::proof]
+#[kani::unwind(12)]
+#[kani::stub(alloc::fmt::format, nofmt)]
+fn c14_attr_address_error_code_any_len() {
+    let msg = any_header();
+    let ec = match crate::ErrorCode::new(437, "ab") {
+        Ok(e) => e,
+        Err(_) => return,
+    };
+    let a = crate::attributes::turn::AddressErrorCode::new(crate::AddressFamily::IPv6, ec);
+    enc_any_len(&a, &msg, 6);
+    std::mem::forget(a);
+}
+
+#[kani::proof]
+#[kani::unwind(12)]
+#[kani::stub(alloc::fmt::format, nofmt)]
+fn c14_attr_password_algorithms_any_len() {
+    use crate::attributes::stun::{PasswordAlgorithm, PasswordAlgorithms};
+    let msg = any_header();
+    let p: [u8; 1] = kani::any();
+    let mut a = PasswordAlgorithms::default();
+    a.add(PasswordAlgorithm::new(Algorithm::new(AlgorithmId::MD5, &p[..])));
+    a.add(PasswordAlgorithm::new(Algorithm::from(AlgorithmId::SHA256)));
+    enc_any_len(&a, &msg, 4 + 1 + 3 + 4);
+    std::mem::forget(a);
+}
+
+#[kani::proof]
+#[kani::unwind(22)]
+#[kani::stub(alloc::fmt::format, nofmt)]
+fn c14_attr_fixed_kinds_any_len() {
+    let msg = any_header();
+    let (sa4, _, _) = any_v4();
+    let (sa6, _, _) = any_v6();
+    let k: u8 = kani::any();
+    kani::assume(k < 10);
+    match k {
+        0 => enc_any_len(&crate::attributes::stun::XorMappedAddress::from(sa4), &msg, 8),
+        1 => enc_any_len(&crate::attributes::stun::XorMappedAddress::from(sa6), &msg, 20),
+        2 => enc_any_len(&crate::attributes::stun::MappedAddress::from(sa6), &msg, 20),
+        3 => enc_any_len(&crate::attributes::turn::ChannelNumber::new(kani::any()), &msg, 4),
+        4 => enc_any_len(&crate::attributes::turn::EvenPort::new(kani::any()), &msg, 1),
+        5 => enc_any_len(&crate::attributes::turn::ReservationToken::from(kani::any::<[u8; 8]>()), &msg, 8),
+        6 => enc_any_len(&crate::attributes::ice::IceControlled::new(kani::any()), &msg, 8),
+        7 => enc_any_len(&crate::attributes::turn::RequestedAddressFamily::new(crate::AddressFamily::IPv4), &msg, 4),
+        8 => enc_any_len(&crate::attributes::stun::Fingerprint::default(), &msg, 4),
+        _ => enc_any_len(&crate::attributes::discovery::ResponsePort::new(kani::any()), &msg, 2),
+    }
+}
+
+#[kani::proof]
+#[kani::unwind(12)]
+#[kani::stub(alloc::fmt::format, nofmt)]
+fn c14_attr_bytes_kinds_any_len() {
+    let msg = any_header();
+    let d: [u8; 3] = kani::any();
+    let k: u8 = kani::any();
+    kani::assume(k < 4);
+    match k {
+        0 => {
+            let a = crate::attributes::turn::Data::new(&d[..]);
+            enc_any_len(&a, &msg, 3);
+            std::mem::forget(a);
+        }
+        1 => {
+            let a = crate::attributes::mobility::MobilityTicket::new(&d[..]);
+            enc_any_len(&a, &msg, 3);
+            std::mem::forget(a);
+        }
+        2 => {
+            let mut a = crate::attributes::stun::UnknownAttributes::default();
+            a.add(1);
+            a.add(2);
+            enc_any_len(&a, &msg, 4);
+            std::mem::forget(a);
+        }
+        _ => {
+            let a = match crate::attributes::stun::Software::new("abc") {
+                Ok(a) => a,
+                Err(_) => return,
+            };
+            enc_any_len(&a, &msg, 3);
+            std::mem::forget(a);
+        }
+    }
+}
+
+// =============================================================================================
+// C04: validation accepts exactly the stored MAC == computed MAC (all 20 / 32 bytes).
+// The HMAC primitive is the recording stub's sibling: it returns the MAC chosen by the harness.
+// =============================================================================================
+static mut WANT_MI: [u8; 20] = [0; 20];
+static mut WANT_SHA: [u8; 32] = [0; 32];
+fn mac_mi(_k: &[u8], _m: &[u8]) -> Vec<u8> {
+    unsafe { WANT_MI.to_vec() }
+}
+fn mac_sha(_k: &[u8], _m: &[u8]) -> Vec<u8> {
+    unsafe { WANT_SHA.to_vec() }
+}
+fn key_ab() -> Option<crate::HMACKey> {
+    crate::HMACKey::new_short_term("ab").ok()
+}
+
+#[kani::proof]
+#[kani::unwind(36)]
+#[kani::stub(alloc::fmt::format, nofmt)]
+#[kani::stub(crate::strings::opaque_string_enforce, precis_ascii)]
+#[kani::stub(<crate::attributes::stun::MessageIntegrity as crate::attributes::integrity_attr::HmacSha>::hmac_sha, mac_mi)]
+fn c04_validate_mi_compares_all_bytes() {
+    use crate::attributes::stun::MessageIntegrity;
+    let key = match key_ab() { Some(k) => k, None => return };
+    let stored: [u8; 20] = kani::any();
+    let want: [u8; 20] = kani::any();
+    unsafe { WANT_MI = want; }
+    let a = MessageIntegrity::from(stored);
+    let ok = a.validate(&[1, 2, 3], &key);
+    let mut same = true;
+    let mut i = 0;
+    while i < 20 {
+        if stored[i] != want[i] {
+            same = false;
+        }
+        i += 1;
+    }
+    assert!(ok == same, "C04: accepted exactly when every byte of the MAC matches");
+    // an attribute built for encoding never validates
+    assert!(!MessageIntegrity::new(key.clone()).validate(&[1, 2, 3], &key));
+    kani::cover!(ok);
+    std::mem::forget(key);
+}
+
+#[kani::proof]
+#[kani::unwind(36)]
+#[kani::stub(alloc::fmt::format, nofmt)]
+#[kani::stub(crate::strings::opaque_string_enforce, precis_ascii)]
+#[kani::stub(<crate::attributes::stun::MessageIntegritySha256 as crate::attributes::integrity_attr::HmacSha>::hmac_sha, mac_sha)]
+fn c04_validate_sha256_compares_all_bytes() {
+    use crate::attributes::stun::MessageIntegritySha256;
+    let key = match key_ab() { Some(k) => k, None => return };
+    let stored: [u8; 32] = kani::any();
+    let want: [u8; 32] = kani::any();
+    unsafe { WANT_SHA = want; }
+    let a = MessageIntegritySha256::from(stored);
+    let ok = a.validate(&[1, 2, 3], &key);
+    let mut same = true;
+    let mut i = 0;
+    while i < 32 {
+        if stored[i] != want[i] {
+            same = false;
+        }
+        i += 1;
+    }
+    assert!(ok == same, "C04: accepted exactly when every byte of the MAC matches");
+    kani::cover!(ok);
+    std::mem::forget(key);
+}
+
+// FINGERPRINT validation: accepted exactly when stored ^ 0x5354554e == CRC-32 of the input
+#[kani::proof]
+#[kani::unwind(260)]
+#[kani::stub(alloc::fmt::format, nofmt)]
+fn c10_fingerprint_validate() {
+    use crate::attributes::stun::Fingerprint;
+    let raw: [u8; 4] = kani::any();
+    let input: [u8; 4] = kani::any();
+    let a = Fingerprint::from(raw);
+    let crc = crc::Crc::<u32>::new(&crc::CRC_32_ISO_HDLC).checksum(&input);
+    let stored = ((raw[0] as u32) << 24) | ((raw[1] as u32) << 16) | ((raw[2] as u32) << 8) | raw[3] as u32;
+    assert!(a.validate(&input) == ((stored ^ 0x5354_554e) == crc), "C10: wire value = CRC XOR 0x5354554e");
+    assert!(!Fingerprint::default().validate(&input));
+}
+
+// three-entry PASSWORD-ALGORITHMS lists: the inner padding of every entry but the last
+fn password_algorithms_rt3<const P1: usize, const P2: usize, const P3: usize>() {
+    use crate::attributes::stun::{PasswordAlgorithm, PasswordAlgorithms};
+    let msg = any_header();
+    let ids: [u16; 3] = kani::any();
+    let p1: [u8; P1] = kani::any();
+    let p2: [u8; P2] = kani::any();
+    let p3: [u8; P3] = kani::any();
+    let mk = |id: u16, p: &[u8]| PasswordAlgorithm::new(if p.is_empty() { Algorithm::from(AlgorithmId::from(id)) } else { Algorithm::new(AlgorithmId::from(id), p) });
+    let mut a = PasswordAlgorithms::default();
+    a.add(mk(ids[0], &p1));
+    a.add(mk(ids[1], &p2));
+    a.add(mk(ids[2], &p3));
+    let pad = |n: usize| (4 - (n & 3)) & 3;
+    let o2 = 4 + P1 + pad(P1);
+    let o3 = o2 + 4 + P2 + pad(P2);
+    let want = o3 + 4 + P3;
+    if let Some(e) = enc(&a, &msg) {
+        assert!(e.size == want, "C02: every entry but the last is padded to 32 bits");
+        assert!(e.out[o2] == (ids[1] >> 8) as u8 && e.out[o2 + 1] == ids[1] as u8 && e.out[o2 + 3] == P2 as u8);
+        assert!(e.out[o3] == (ids[2] >> 8) as u8 && e.out[o3 + 1] == ids[2] as u8 && e.out[o3 + 3] == P3 as u8);
+        if let Some(b) = dec::<PasswordAlgorithms>(&e, &msg) {
+            assert!(b.password_algorithms().len() == 3, "C01: same list after the round trip");
+            let j: usize = kani::any();
+            kani::assume(j < 3);
+            assert!(u16::from(b.password_algorithms()[j].algorithm()) == ids[j]);
+            let pl = [P1, P2, P3];
+            assert!(b.password_algorithms()[j].parameters().map_or(0, |p| p.len()) == pl[j]);
+            std::mem::forget(b);
+        }
+    }
+    std::mem::forget(a);
+}
+pa_inst! {
+    attr_password_algorithms_n3_p1_p2_p0 = password_algorithms_rt3(1, 2, 0);
+    attr_password_algorithms_n3_p0_p0_p0 = password_algorithms_rt3(0, 0, 0);
+    attr_password_algorithms_n3_p3_p1_p2 = password_algorithms_rt3(3, 1, 2);
+}
